@@ -408,6 +408,28 @@ func (e *Executor) startExecution(ctx context.Context, t *ast.Task, execute func
 	e.executionHashesMutex.Lock()
 
 	if otherExecution, ok := e.executionHashes[h]; ok {
+		// If we are (transitively) called by the execution we would wait
+		// for, or by one that is itself waiting for us, waiting would never
+		// end: the deduplicated tasks reference each other in a cycle.
+		waiter, _ := ctx.Value(executionContextKey{}).(string)
+		if waiter != "" {
+			if !otherExecution.finished && (waiter == h || e.executionWaitsFor(h, waiter, map[string]bool{})) {
+				e.executionHashesMutex.Unlock()
+				return &errors.TaskCalledTooManyTimesError{
+					TaskName:        t.Task,
+					MaximumTaskCall: MaximumTaskCall,
+				}
+			}
+			e.executionWaits[waiter] = append(e.executionWaits[waiter], h)
+			defer func() {
+				e.executionHashesMutex.Lock()
+				waits := e.executionWaits[waiter]
+				if i := slices.Index(waits, h); i >= 0 {
+					e.executionWaits[waiter] = slices.Delete(waits, i, i+1)
+				}
+				e.executionHashesMutex.Unlock()
+			}()
+		}
 		e.executionHashesMutex.Unlock()
 		e.Logger.VerboseErrf(logger.Magenta, "task: skipping execution of task: %s\n", h)
 
@@ -423,7 +445,7 @@ func (e *Executor) startExecution(ctx context.Context, t *ast.Task, execute func
 		return otherExecution.err
 	}
 
-	ctx, cancel := context.WithCancel(ctx)
+	ctx, cancel := context.WithCancel(context.WithValue(ctx, executionContextKey{}, h))
 	defer cancel()
 
 	execution := &taskExecution{done: make(chan struct{})}
@@ -431,9 +453,34 @@ func (e *Executor) startExecution(ctx context.Context, t *ast.Task, execute func
 	e.executionHashesMutex.Unlock()
 	verifhook.At("exec.registered", h)
 
-	defer close(execution.done)
+	defer func() {
+		e.executionHashesMutex.Lock()
+		execution.finished = true
+		e.executionHashesMutex.Unlock()
+		close(execution.done)
+	}()
 	execution.err = execute(ctx)
 	return execution.err
+}
+
+// executionContextKey is the context key under which the innermost
+// deduplicated execution in progress on a call chain is recorded.
+type executionContextKey struct{}
+
+// executionWaitsFor reports whether the deduplicated execution "from" is
+// waiting, directly or through other executions, for the execution "to". The
+// caller must hold executionHashesMutex.
+func (e *Executor) executionWaitsFor(from, to string, visited map[string]bool) bool {
+	if visited[from] {
+		return false
+	}
+	visited[from] = true
+	for _, next := range e.executionWaits[from] {
+		if next == to || e.executionWaitsFor(next, to, visited) {
+			return true
+		}
+	}
+	return false
 }
 
 // FindMatchingTasks returns a list of tasks that match the given call. A task
